@@ -1,6 +1,7 @@
 package main
 
 import (
+	"errors"
 	"context"
 	"encoding/json"
 	"fmt"
@@ -42,6 +43,9 @@ type c09Cfg struct {
 	Base string   `json:"base"`
 	Wrap []string `json:"wrap"`
 	Incr int      `json:"incr"` // level of the IncreaseLevel wrapper (only when "incr" ∈ wrap)
+	// SlogDepth: number of groups already pending on the SHARED slog handler (0, 3, 5, 6, 7): goroutines derive sibling
+	// handlers from it concurrently, which must not touch shared state (a pending-group slice with spare capacity)
+	SlogDepth int `json:"slogdepth,omitempty"`
 }
 
 type c09Op struct {
@@ -59,7 +63,7 @@ var c09Wraps = []string{"lazy", "with", "hooked", "incr", "named", "caller", "st
 
 var c09Acts = []string{"log", "log", "log", "log", "log", "with", "withlazy", "named", "sugar", "withopts", "level", "sync",
 	"setlevel", "getlevel", "leveltext", "replace", "global", "obslen", "obsall", "obstake", "obsfilter", "bwssync",
-	"slog", "slogwith", "sloggroup", "share", "adopt", "checkonly", "core"}
+	"slog", "slogwith", "sloggroup", "sloggroup", "share", "adopt", "checkonly", "core", "logbad"}
 
 var c09Fes = []string{"plain", "log", "check", "sugarw", "sugarf", "sugar", "sugarln"}
 
@@ -81,7 +85,7 @@ func c09Gen(r *Rand, tier string, emit func(op any)) {
 		}
 	}
 	for i := 0; i < n; i++ {
-		cfg := c09Cfg{Base: Pick(r, []string{"obs", "io", "io", "bws", "bwsraw"}), Wrap: []string{}}
+		cfg := c09Cfg{Base: Pick(r, []string{"obs", "io", "io", "bws", "bwsraw"}), SlogDepth: Pick(r, []int{0, 0, 3, 5, 6, 7}), Wrap: []string{}}
 		nw := r.Intn(5)
 		for j := 0; j < nw; j++ {
 			w := Pick(r, c09Wraps)
@@ -183,6 +187,9 @@ func c09Build(op *c09Op) *c09World {
 	}
 	w.shared = l
 	w.handler = zapslog.NewHandler(l.Core())
+	for i := 0; i < op.Cfg.SlogDepth; i++ {
+		w.handler = w.handler.WithGroup(fmt.Sprintf("p%d", i))
+	}
 	return w
 }
 
@@ -264,6 +271,11 @@ func (w *c09World) run(g int, acts []c09Act) {
 			switch a.A {
 			case "log":
 				w.logAt(local, a, c09Counted)
+			case "logbad":
+				// fields whose encoding FAILS (reflection error, failing marshaler): the error paths of the encoders run under
+				// the same concurrency as everything else (message differs from the counted one)
+				local.Info("m-bad", zap.Reflect("ch", make(chan int)), zap.Int("i", i),
+					zap.Object("o", zapcore.ObjectMarshalerFunc(func(e zapcore.ObjectEncoder) error { e.AddInt("k", i); return errors.New("no") })))
 			case "checkonly":
 				_ = local.Check(zapcore.Level(a.Lvl), "x") // an unwritten CheckedEntry is simply dropped
 			case "with":
